@@ -5,10 +5,11 @@ parameter splitter `SearchKeywordTerms.parameters`
 
 Mirrors `yamlpath/common/keywordsearches.py` and `yamlpath/path/searchkeywordterms.py` branch for
 branch, over the `Node` type; results are addresses.  `max`/`min` follow the code *as it reads after
-the proposed repair `fixes/C13-1.patch`* (a member whose attribute is null is not comparable).
-Every Python failure mode outside the YAML Path exception family is a `crash` outcome:
-`ValueError` from the splitter (unmatched quote), `IndexError` from `match_key[0]` on an empty
-parameter, `TypeError` from grouping by an unhashable (container) value.
+the proposed repairs `fixes/C13-1.patch`* (a member whose attribute is null is not comparable) *and
+`fixes/C13-2.patch`* (the splitter's `ValueError` and the `IndexError` of `match_key[0]` on an empty
+parameter are raised as YAML Path errors).  Every remaining Python failure mode outside the YAML
+Path exception family is a `crash` outcome: `ValueError` from the splitter itself (`splitParams`),
+`TypeError` from grouping by an unhashable (container) value.
 -/
 namespace Ypv
 
@@ -96,7 +97,7 @@ def hasChild (data : Node) (a : Addr) (inv : Bool) (ps : List Str) : Except Err 
   match ps with
   | [k] =>
     match k with
-    | [] => .error (.crash .indexError)          -- `match_key[0]` on an empty parameter
+    | [] => .error ypathErr                      -- an empty child name is refused (fixes/C13-2.patch)
     | '&' :: _ => .error .outOfModel             -- anchored children are not modelled
     | _ => (hasConcreteChild data a inv k).map .nodes
   | _ => .error ypathErr
@@ -342,7 +343,7 @@ def kwUnique (data : Node) (a : Addr) (inv : Bool) (ps : List Str) : Except Err 
 /-- `KeywordSearches.search_matches(terms, data, …)` at the node `data` held at address `a`. -/
 def kwSearch (data : Node) (a : Addr) (inv : Bool) (kw : Keyword) (rawParams : Str) : Except Err KwOut :=
   match splitParams rawParams with
-  | .error e => .error e
+  | .error _ => .error ypathErr        -- `except ValueError: raise YAMLPathException` (fixes/C13-2.patch)
   | .ok ps =>
     match kw with
     | .distinct => kwDistinct data a inv ps
